@@ -125,8 +125,9 @@ async def _run(kind, streams, schedule, eof_order, for_blobs):
         shadows, shadow_counts = [], [0] * n
         for i, k in enumerate(kinds):
             b = Buffer()
-            if k == "client-tcp" and for_blobs and for_blobs[i]:
-                b.max_buffer_size_before_frontal_cleanup = None
+            # set explicitly, whatever a default-constructed Buffer happens to have: BLOB-mode client connections have no junk
+            # threshold, every other connection the protocol's 2048 characters
+            b.max_buffer_size_before_frontal_cleanup = None if (k == "client-tcp" and for_blobs and for_blobs[i]) else 2048
             shadows.append(b)
         pos = [0] * n
         fed = [0] * n
